@@ -1091,6 +1091,21 @@ def large_programs_c18(n=300):
     prog("power_iteration", (T1, call("power_iteration", A=S("L1"), max_iter=20, key=1)),
          (D2, call("power_iteration", A=S("L2"), max_iter=20, key=1)))
     prog("nystrom", (D1, call("nystrom", A=S("L1"), rank=4, key=1)), (D2, call("nystrom", A=S("L2"), rank=4, key=1)))
+    # prod(shape) > 1e6: Auto() takes its iterative branches (CG, Lanczos, power iteration, Hutchinson) with default settings
+    m = 1001
+    # user operators (no structural rule applies) computing a diagonal product
+    E1 = _psd({"k": "no_dispatch", "of": {"k": "diag", "n": m, "dtype": "f8", "seed": 81}})
+    E2 = _psd({"k": "no_dispatch", "of": {"k": "diag", "n": m, "dtype": "f8", "seed": 82}})
+    wa, wb = arr([m], "f8", 83), arr([m], "f8", 84)
+    prog("solve_auto_large", (E1, call("solve", A=S("L1"), b=wa)), (E2, call("solve", A=S("L2"), b=wb)))
+    prog("solve_auto_large_tol", (E1, call("solve", A=S("L1"), b=wa, alg="Auto", akw={"tol": 1e-3, "max_iters": 5})),
+         (E2, call("solve", A=S("L2"), b=wb, alg="Auto", akw={"tol": 1e-3, "max_iters": 5})))
+    prog("sqrt_auto_large", (E1, call("unary_apply", A=S("L1"), f="sqrt", alg="Auto", akw={"max_iters": 5}, x=wa)),
+         (E2, call("unary_apply", A=S("L2"), f="sqrt", alg="Auto", akw={"max_iters": 5}, x=wb)))
+    prog("eig_auto_large", (E1, call("eig", A=S("L1"), k=1, which="LM")), (E2, call("eig", A=S("L2"), k=1, which="LM")))
+    prog("pinv_auto_large", (E1, call("pinv_solve", A=S("L1"), b=wa, alg="Auto", akw={"max_iters": 5})),
+         (E2, call("pinv_solve", A=S("L2"), b=wb, alg="Auto", akw={"max_iters": 5})))
+    prog("diag_exact_large", (E1, call("diag_exact", A=S("L1"), k=-1)), (E2, call("diag_exact", A=S("L2"), k=-1)))
     return out
 
 
